@@ -18,6 +18,20 @@ pub fn spawn_unipayload_handler(
     cluster_id: ClusterId,
     tx_changes: CorroSender<(ChangeV1, ChangeSource)>,
 ) {
+    spawn_unipayload_handler_with(tripwire, conn, move || cluster_id, tx_changes)
+}
+
+/// Same as [`spawn_unipayload_handler`], but the node's cluster id is asked for
+/// every received payload: it can change at runtime (`cluster set-id`) while
+/// the connection stays open.
+pub fn spawn_unipayload_handler_with<F>(
+    tripwire: &Tripwire,
+    conn: &quinn::Connection,
+    cluster_id: F,
+    tx_changes: CorroSender<(ChangeV1, ChangeSource)>,
+) where
+    F: Fn() -> ClusterId + Clone + Send + Sync + 'static,
+{
     tokio::spawn({
         let conn = conn.clone();
         let mut tripwire = tripwire.clone();
@@ -45,6 +59,7 @@ pub fn spawn_unipayload_handler(
                 );
 
                 tokio::spawn({
+                    let cluster_id = cluster_id.clone();
                     let tx_changes = tx_changes.clone();
                     async move {
                         let mut framed = FramedRead::new(
@@ -72,7 +87,7 @@ pub fn spawn_unipayload_handler(
                                                         )),
                                                     cluster_id: payload_cluster_id,
                                                 } => {
-                                                    if cluster_id != payload_cluster_id {
+                                                    if cluster_id() != payload_cluster_id {
                                                         continue;
                                                     }
                                                     changes.push((change, ChangeSource::Broadcast));
